@@ -50,7 +50,10 @@ func removeTwoNodeCycles(g *graph.DGraph) {
 			seen[pair{a, b}] = true
 		}
 	}
-	for e := range rev {
-		e.Reverse()
+	// reverse in edge list order: ranging over the set would reorder the nodes' edge lists randomly
+	for _, e := range g.Edges {
+		if rev[e] {
+			e.Reverse()
+		}
 	}
 }
